@@ -1,6 +1,6 @@
 """Receiver-side rules: ERR-MAP, ZERO-READ (C03); NB-PAIR, MODE-TABLE, FOLLOWUP-BLOCKING, TIMEOUT-ARM (C10);
 TRUNC-ERR, CLOSED-ORIGIN (C12)."""
-from vlib.flow import (Explorer, Expr, Tracer, edge_label, expr_str, path_summaries, relation_of_label, chain_calls)
+from vlib.flow import (Explorer, Expr, Tracer, edge_label, expr_str, path_summaries, relation_of_label, chain_calls, segment_summaries)
 from vlib.mir import callee_name, op_const, op_local, op_place, strip_generics
 from rules.fd import const_eval
 from rules.send import _root_local
@@ -229,6 +229,70 @@ def rule_zero_read(ctx, cfg, F):
             R.violate("%s:%s" % (f.path, k), msg, f.path, f.loc(b), config=cfg)
         if not problems:
             R.ok("recvmsg result: ==0 -> closed, <0 -> Errno(last), >0 -> Ok", f.loc(b), cfg)
+
+
+
+READ_CALLS = ("libc::recv", "libc::recvmsg", "libc::read", "libc::recvfrom")
+
+
+def rule_errno_fresh(ctx, cfg, F):
+    R = ctx.rule("ERRNO-FRESH", "after a read-type system call (recv, recvmsg) errno is consulted (UnixError::last) only on paths where the call is known to have "
+                 "returned a negative value: a zero-length read (end of stream) leaves errno stale, so classifying it through errno turns 'the peer is gone' into "
+                 "whatever error happened last on this thread (EAGAIN => 'nothing more to read', 0 => a bogus I/O error)")
+    n = 0
+    for f in sorted(F.fns.values(), key=lambda x: x.path):
+        if not f.path.startswith("platform::unix"):
+            continue
+        reads = [b for b, t in f.calls() if strip_generics(callee_name(t)) in READ_CALLS]
+        if not reads:
+            continue
+        tr = Tracer(f)
+        for cb in reads:
+            t = f.term(cb)
+            n += 1
+
+            def is_res(op, cb=cb):
+                return any(r.kind == "call" and r.block == cb for r in tr.roots_of_operand(op))
+
+            def edge_fact(b, s, labs):
+                for lab in labs:
+                    rel = relation_of_label(f, lab)
+                    if rel:
+                        a, c, rs = rel
+                        ca, cc = _const_of(f, tr, a), _const_of(f, tr, c)
+                        if is_res(a) and cc == 0:
+                            yield ("rel", tuple(sorted(rs)))
+                        elif is_res(c) and ca == 0:
+                            yield ("rel", tuple(sorted({"lt": "gt", "gt": "lt", "eq": "eq"}[x] for x in rs)))
+
+            def block_fact(b):
+                tt = f.term(b)
+                if tt["t"] == "call" and strip_generics(callee_name(tt)).endswith("UnixError::last"):
+                    yield ("errno", b)
+            bad = None
+            # a later system call owns errno from then on: segments end at the next foreign call
+            later = {b for b, t2 in f.calls() if (strip_generics(callee_name(t2)).startswith("libc::") or t2.get("foreign")) and b != cb} | set(reads)
+            for facts, endb in segment_summaries(f, t["to"], later, edge_fact, block_fact):
+                errno_blocks = [x[1] for x in facts if x[0] == "errno"]
+                if not errno_blocks:
+                    continue
+                poss = {"lt", "eq", "gt"}
+                for x in facts:
+                    if x[0] == "rel":
+                        poss &= set(x[1])
+                if not poss:
+                    continue        # contradictory facts: an infeasible combination
+                if poss != {"lt"}:
+                    bad = (errno_blocks[0], poss)
+                    break
+            name = strip_generics(callee_name(t)).split("::")[-1]
+            if bad:
+                R.violate("%s:%s:errno-read-without-negative-result" % (f.path, name),
+                          "errno is read after %s on a path where the call may have returned %s: a zero-length read does not set errno" % (name, "/".join(sorted({"eq": "0", "gt": "> 0", "lt": "< 0"}[x] for x in bad[1]))),
+                          f.path, f.loc(bad[0]), config=cfg)
+            else:
+                R.ok("%s in %s: errno is read only after a negative result" % (name, f.path), f.loc(cb), cfg)
+    R.count("read_sites[%s]" % cfg, n)
 
 
 def rule_timeout_arm(ctx, cfg, F):
